@@ -9,6 +9,7 @@ import engine_flw2 as flw2
 import engine_pan as pan
 import engine_bit as bit
 import engine_pol as pol
+import engine_sup as sup
 
 PROPS = {
     "C02": {
@@ -24,6 +25,34 @@ PROPS = {
                        "conditions). PAN-5: the cursor written back to the scan loop through next_pos is dominated by SegPos::increment on that cursor (deletion and substitution). PAN-6: lexer/parser alphabet agreement: every modifier value Lexer::get_feature / AliasLexer::get_feature can put into a Feature token (char literals, `matches!` ranges and ascii classes of the gate, and '-'+class) is listed by an arm of the corresponding curr_token_to_modifier, whose default arm is unreachable!(). PAN-7: no str/String anywhere in lib or bin is range-sliced at an offset that is not a byte offset of that same string (zero slices on the pinned tree; the positive control keeps the rule alive). ERR-1: no formatter call resolves to an unreachable!() stub.",
         "does_not_decide": "termination in general (e.g. `$ > $` spins although the cursor is advanced); index / slice / arithmetic / Option::unwrap panics that depend on cursor values (e.g. `r...l > l r r`); stack depth of the recursive matcher.",
         "assumptions": ["all SubRule methods are invoked on the same SubRule object (cells named by field)"],
+    },
+    "C05": {
+        "rules": [("SUP-1", sup.sup1), ("SUP-2", sup.sup2), ("SUP-4", sup.sup4)],
+        "explanation": "Decides the table clauses of C05 by decision-table extraction: the matchers and setters of stress / sec.stress / long / overlong are small decision "
+                       "trees over two finite domains (stress in {unstressed, primary, secondary}; length in {short, long, overlong}); the trees are read off the HIR (comparison "
+                       "operators and constants, `while seg_len < N` / `> N` clamps, constants assigned to `.stress`, the true/false and Positive/Negative arms) and tabulated. "
+                       "SUP-1: the match tables of SubRule::match_stress / match_seg_length and Word::alias_match_stress / alias_match_seg_length equal the manual's: [+long] at "
+                       "least long, [-long] short, [+overlong] overlong, [-overlong] at most long, [+stress] primary or secondary, [-stress] unstressed, [+sec.stress] secondary "
+                       "only; a bound alpha behaves as the binary arm of its value, an inverse alpha as the other, an unbound alpha captures membership in the positive set "
+                       "(inverted for -α). SUP-2: for all 9 modifier combinations x 3 states, the state after Syllable::apply_syll_mods / apply_supras (and Word::alias_apply_stress) "
+                       "is matched by that same combination, single modifiers set the documented value ([+long] short->long, [+stress]->primary, ...), [-stress,+sec.stress] and "
+                       "[-long,+overlong] are errors, the alias setters agree with the rule setters (alias_apply_length = the rule table on a short segment). SUP-4 (MIR dominance): every return of SubRule::match_supr_mod_seg / Word::alias_match_supr_mod_seg that can accept is dominated by the calls of the stress matcher and the length matcher and by the test of `mods.tone` (the matrix is a conjunction of its tiers).",
+        "does_not_decide": "that the run length the tables are applied to is the true length of the segment at the cursor (get_seg_length_at, the insert/remove positions), tone matching/setting, "
+                           "the cursor after a lengthened segment, that the other suprasegmentals are left alone (C14 FLW-4 decides that write-effect clause).",
+        "assumptions": ["length is abstracted to the manual's three values; `while seg_len < N { insert; seg_len += 1 }` is read as max(len, N), `> N` with remove as min(len, N)",
+                        "ModKind::as_bool returns the sign of a binary modifier and the bound value of an alpha (PUR/POL rules)"],
+    },
+    "C07": {
+        "controls": ["BIT"],
+        "rules": [("SUP-3", sup.sup3), ("BIT-4", bit.bit4), ("POL-1", pol.pol1)],
+        "explanation": "Decides the alpha half of C07 ('a feature, node, length or stress value copied by an alpha onto the element it was read from leaves every word as it was') "
+                       "as a composition of extracted tables and proved identities: POL-1: the matcher captures `bit != 0` (false on an absent node) for α, its inverse for -α, and the "
+                       "output applies set_feat(N, bit, α) resp. !α; BIT-4 (bit-level abstract interpretation, all segments): set_feat(N, bit, <value of that bit>) and "
+                       "set_node(N, get_node(N)) are the identity on every segment (7 nodes x 16 place shapes x every bit x both values); SUP-3: for long, overlong, stress, sec.stress "
+                       "the value captured by the unbound alpha arm of match_seg_length / match_stress, fed to apply_supras / apply_syll_mods, gives the state back, for each of the "
+                       "three states.",
+        "does_not_decide": "variables (`X=1 > 1`): capture and write-back of segments and syllables, variable comparison in contexts; that the alpha table is keyed and scoped correctly beyond FLW-8 (C04); tone.",
+        "assumptions": ["length abstracted to the manual's three values (see C05)"],
     },
     "C08": {
         "controls": ["FLW-guard", "BIT"],
